@@ -259,6 +259,23 @@ def check_loop_progress(ctx, rule, fn, progress, default_vars=()):
                         t_ = std_unwrap(n_.children[0])
                         if t_.kind == "DeclRefExpr" and t_.get("local"):
                             vars_.add(t_.d["d"])
+        # a condition variable that is declared inside the loop (`while(T *next = step(cur))`) is re-computed from its
+        # initialiser on every iteration: the loop advances when something that initialiser reads is modified
+        grew = bool(vars_)
+        while grew:
+            grew = False
+            for b_ in body:
+                for n_ in fn.blocks[b_].nodes():
+                    if n_.kind == "DeclStmt":
+                        for d_ in n_.get("decls", []):
+                            if d_["d"] in vars_ and "init" in d_:
+                                for x_ in fn.node(d_["init"]).walk():
+                                    if x_.kind == "DeclRefExpr" and x_.get("local") and x_.get("dk") in ("Var", "ParmVar"):
+                                        y_ = std_unwrap(x_)
+                                        dd = y_.d["d"] if y_.kind == "DeclRefExpr" else x_.d["d"]
+                                        if dd not in vars_:
+                                            vars_.add(dd)
+                                            grew = True
         prog_blocks = {b for b in body if any(modifies(n) for n in fn.blocks[b].nodes())}
         # can we go h -> ... -> u inside the body avoiding progress blocks?
         stuck = False
